@@ -150,6 +150,10 @@ inline void failCase(const QJsonObject &caseObj, const std::string &why)
     o["why"] = QString::fromStdString(why);
     o["case"] = caseObj;
     writeFile(envOr("VERIF_FAILCASE", ""), QJsonDocument(o).toJson(QJsonDocument::Indented));
+    // the case as generated, before shrinking: for schedule-dependent properties a shrunk case may fail only rarely, the driver
+    // falls back to this one when the shrunk case does not reproduce
+    if (s.failures == 1 && !std::string(envOr("VERIF_FAILCASE", "")).empty())
+        writeFile((std::string(envOr("VERIF_FAILCASE", "")) + ".first").c_str(), QJsonDocument(o).toJson(QJsonDocument::Indented));
 }
 
 inline void dumpStats(bool ok)
